@@ -86,8 +86,38 @@ func c28Discover() (nfsPort, mountPort uint32, err error) {
 }
 
 // c28Talk runs the conformant client against addr.
-func c28Talk(addr string) (stage string, err error) {
-	cl, err := drv.Dial(addr, 3*time.Second)
+func c28Talk(addr string) (stage string, err error) { return c28TalkX(addr, 0) }
+
+// c28Crowd: n conformant clients hold their conversation at the same time, three times in a row each, with xids of
+// their own; every one of them must be answered as if it were alone.
+func c28Crowd(addr string, n int) (who int, stage string, err error) {
+	type fail struct {
+		who   int
+		stage string
+		err   error
+	}
+	out := make(chan fail, n)
+	for i := 0; i < n; i++ {
+		go func(i int) {
+			for round := 0; round < 3; round++ {
+				if st, e := c28TalkX(addr, uint32(1000*(i+1)+100*round)); e != nil {
+					out <- fail{i, st, e}
+					return
+				}
+			}
+			out <- fail{i, "", nil}
+		}(i)
+	}
+	for i := 0; i < n; i++ {
+		if f := <-out; f.err != nil && err == nil {
+			who, stage, err = f.who, f.stage, f.err
+		}
+	}
+	return
+}
+
+func c28TalkX(addr string, xbase uint32) (stage string, err error) {
+	cl, err := drv.Dial(addr, 8*time.Second)
 	if err != nil {
 		return "dial", err
 	}
@@ -95,7 +125,7 @@ func c28Talk(addr string) (stage string, err error) {
 	cred := nfsx.AuthSys(1, "client", 0, 0, nil)
 	rt := func(xid, prog, vers, proc uint32, args []byte, frags ...int) (*nfsx.Reply, error) {
 		// every call reaches the socket in two pieces; the cut falls inside the first record marker for some of them
-		rec, err := cl.RoundTripSplit(nfsx.Call(xid, prog, vers, proc, cred, nfsx.AuthNone(), args), 3*time.Second, int(xid%5)+1, frags...)
+		rec, err := cl.RoundTripSplit(nfsx.Call(xid, prog, vers, proc, cred, nfsx.AuthNone(), args), 8*time.Second, int(xid%5)+1, frags...)
 		if err != nil {
 			return nil, err
 		}
@@ -111,10 +141,10 @@ func c28Talk(addr string) (stage string, err error) {
 		}
 		return rp, nil
 	}
-	if _, err := rt(11, nfsx.ProgNFS, 3, 0, nil); err != nil {
+	if _, err := rt(xbase+11, nfsx.ProgNFS, 3, 0, nil); err != nil {
 		return "NFS NULL", err
 	}
-	rp, err := rt(12, nfsx.ProgMount, 3, nfsx.MountMnt, (&nfsx.W{}).Str("/").B, 20, 30) // a two/three-fragment record
+	rp, err := rt(xbase+12, nfsx.ProgMount, 3, nfsx.MountMnt, (&nfsx.W{}).Str("/").B, 20, 30) // a two/three-fragment record
 	if err != nil {
 		return "MNT /", err
 	}
@@ -122,7 +152,7 @@ func c28Talk(addr string) (stage string, err error) {
 	if err != nil || m.Status != 0 {
 		return "MNT /", fmt.Errorf("mountres3 status %d, %v", m.Status, err)
 	}
-	rp, err = rt(13, nfsx.ProgNFS, 3, nfsx.ProcGetattr, nfsx.ArgsFh(m.Fh))
+	rp, err = rt(xbase+13, nfsx.ProgNFS, 3, nfsx.ProcGetattr, nfsx.ArgsFh(m.Fh))
 	if err != nil {
 		return "GETATTR", err
 	}
@@ -218,6 +248,13 @@ func runC28(tb stat.TB, c c28Case) {
 			time.Sleep(time.Duration(c.QuietMs) * time.Millisecond)
 		}
 		stage, err := c28Talk(addr)
+		if err == nil && c.QuietMs == 0 {
+			if who, cstage, cerr := c28Crowd(addr, 4); cerr != nil {
+				stop()
+				stat.Violate(tb, id, check, "concurrent-clients-not-served-like-a-single-one:"+c.Path, c, "server started through %s: one conformant client was served, but of 4 clients talking at the same time client %d failed at %s: %v", c.Path, who, cstage, cerr)
+				return
+			}
+		}
 		if err == nil && c.QuietMs > 0 {
 			time.Sleep(time.Duration(c.QuietMs) * time.Millisecond)
 			if stage, err = c28Talk(addr); err != nil {
